@@ -7,7 +7,7 @@ Unlike `PX` this needs assumptions, all explicit:
                  an `f32`/`f64` call a bit pattern of that width
   * `ExtOK ext`  what chrono parsing returns fits in 64 bits (dates: after scaling to milliseconds)
   * `FloatOK`    the IEEE conversions of `Basic/Float.lean` return bit patterns of the target width
-                 (a closed statement about the model's own functions; not proved here)
+                 (proved: Lemmas/FloatBounds.lean, instance `floatOK` in Lemmas/C03Final.lean)
 -/
 namespace SaModel.Lemmas.C03
 open SaModel SaModel.Build SaModel.Spec
